@@ -384,7 +384,7 @@ pub fn run(rep: &mut Report) {
         run_one(rep, Sc12 { kind: "stop-restart", kicks: 2, mutex: false }, 2, per);
         run_one(rep, Sc12 { kind: "disable-only", kicks: 1, mutex: false }, 3, per);
     }
-    rep.rule = "per scenario (disable/enable, stop(GET_VRING_BASE)/restart, reset/enable; the same on two rings of one worker; restart with a new kick descriptor; replacement of the kick descriptor of a started ring; RwLock and Mutex rings; 1-2 kicks): depth-first enumeration of all schedules of {worker thread, daemon thread, frontend script, guest} with at most b preemptions, b = 0,1,2 (thorough: up to 6 for single-ring scenarios, 3-4 otherwise), after a deterministic set-up prefix. Scheduling points: recvmsg, sendmsg, epoll_wait (before / after return), epoll_ctl of the library threads, the worker's acquisitions of the ring state lock (hook) and the entry of the backend's handle_event. Oracle per state: handle_event is not entered after the reply to a disabling/stopping message was written unless a later enabling message was already sent; at the end: the last kick was followed by a dispatch while active, the worker is alive, the frontend's script completed. Non-trivial = schedules with at least one real choice".into();
+    rep.rule = "per scenario (disable/enable, stop(GET_VRING_BASE)/restart, reset/enable; the same on two rings of one worker; restart with a new kick descriptor; replacement of the kick descriptor of a started ring; RwLock and Mutex rings; 1-2 kicks): depth-first enumeration of all schedules of {worker thread, daemon thread, frontend script, guest} with at most b preemptions, b = 0,1,2 (thorough: up to 6 for single-ring scenarios, 3-4 otherwise), after a deterministic set-up prefix. Scheduling points: recvmsg, sendmsg, epoll_wait (before / after return), epoll_ctl of the library threads, the worker's acquisitions of the ring state lock (hook) and the entry of the backend's handle_event. Oracle per state: handle_event is not entered after the reply to a disabling/stopping message was written unless a later enabling message was already sent; at the end: the last kick was followed by a dispatch while active, the worker is alive, the frontend's script completed. Non-trivial = schedules that preempt a runnable thread at least once (all schedules are distinct)".into();
     rep.assumptions.push("data-race freedom between scheduling points (lock-protected or kernel state); sequentially consistent scheduler".into());
     rep.assumptions.push("'states' = distinct (per-thread step counters, trace length) fingerprints over all executions".into());
 }
